@@ -295,7 +295,11 @@ func runC02Child(e *Env) error {
 			time.Sleep(time.Duration(op.MS) * time.Millisecond)
 		}
 	}
-	switch rd.End {
+	end := rd.End
+	if os.Getenv("VERIF_C02_FINISH") != "" {
+		end = "point"
+	}
+	switch end {
 	case "close":
 		db.Close()
 		say("CLOSED")
@@ -313,6 +317,43 @@ func runC02Child(e *Env) error {
 }
 
 // ---------- parent ----------
+
+type c02Hit struct {
+	name string
+	nth  int
+}
+
+// c02PointLog runs the first round of the case without killing it and returns every (step, occurrence) it passed.
+func c02PointLog(c *jCrashCase) ([]c02Hit, error) {
+	dir := tempDir()
+	defer rmDir(dir)
+	script := filepath.Join(dir, "case.json")
+	b, _ := json.Marshal(c)
+	if err := os.WriteFile(script, b, 0644); err != nil {
+		return nil, err
+	}
+	os.MkdirAll(filepath.Join(dir, "tmp"), 0755)
+	logf := filepath.Join(dir, "points.log")
+	cmd := exec.Command(os.Args[0], "c02child", "-replay", script, "-mode", "0:"+filepath.Join(dir, "db"), "-out", filepath.Join(dir, "childout"))
+	// the child's round ends like an armed round (wait, flush) so that the flush steps are passed
+	cmd.Env = append(os.Environ(), "VERIF_POINT_LOG="+logf, "TMPDIR="+filepath.Join(dir, "tmp"), "VERIF_C02_FINISH=1")
+	if out, err := cmd.CombinedOutput(); err != nil {
+		return nil, fmt.Errorf("point-log run failed: %v: %s", err, out)
+	}
+	lb, err := os.ReadFile(logf)
+	if err != nil {
+		return nil, err
+	}
+	var hits []c02Hit
+	for _, l := range strings.Split(string(lb), "\n") {
+		f := strings.Fields(l)
+		if len(f) == 2 && f[0] != "CRASH" {
+			n, _ := strconv.Atoi(f[1])
+			hits = append(hits, c02Hit{f[0], n})
+		}
+	}
+	return hits, nil
+}
 
 func execCrashCase(e *Env, c *jCrashCase) (*c02Obs, error) {
 	dir := tempDir()
@@ -609,6 +650,28 @@ func runC02(e *Env) error {
 			}
 			if err := one(&c); err != nil {
 				return err
+			}
+		}
+	} else if e.Mode == "enum" {
+		// fault enumeration: one history, killed at every occurrence of every instrumented step that an un-killed run of
+		// it passes through; then a second round of inserts, a clean close, and the observation
+		for i := 0; i < e.N; i++ {
+			base := genCrashCase(e.R)
+			base.Rounds = base.Rounds[:1]
+			base.Rounds[0].End = "exit"
+			hits, err := c02PointLog(base)
+			if err != nil {
+				return err
+			}
+			e.Add("enumerated_kill_points", len(hits))
+			for _, h := range hits {
+				c := *base
+				c.Rounds = []jCRound{base.Rounds[0]}
+				c.Rounds[0].End, c.Rounds[0].Point, c.Rounds[0].Nth = "point", h.name, h.nth
+				if err := one(&c); err != nil {
+					b, _ := json.Marshal(&c)
+					return fmt.Errorf("%v on case %s", err, b)
+				}
 			}
 		}
 	} else {
